@@ -13,7 +13,7 @@ META = dict(
     explanation='bounded symbolic execution (symx) of the real SpectralInformation mutators and element __call__ methods '
                 'on numpy object arrays of z3 reals; every obligation is a z3 query over all positive powers and all valid '
                 'signal/ASE/NLI splits; solver models of every path are replayed on the float implementation',
-    bounds=['channels k<=3 (quick) / 4 (thorough)', 'one element step from an arbitrary state satisfying I',
+    bounds=['channels k<=3 (quick) / 5 (thorough)', 'one element step from an arbitrary state satisfying I',
             'floats modelled as reals', 'NLI added <= channel power (the property\'s own caveat)',
             'reported-ratio identity also with the ASE share or the NLI share exactly zero on every channel',
             'input spectrum object re-inspected after an amplifier call (aliasing of share arrays)'],
